@@ -140,7 +140,7 @@ static Node *node_operand(const OperandIn *c, int k) {
 
 // eval2() hands floating-typed nodes to eval_double(); integer-only trees never get there.  The
 // callee is cut (cbmc: --replace-calls eval_double:cut_eval_double) by a stub that ASSERTS this.
-double cut_eval_double(Node *node) {
+long double cut_eval_double(Node *node) {
   VASSERT(0, "eval_double reached on an integer-only expression");
   __CPROVER_assume(0);
   return 0;
